@@ -225,17 +225,47 @@ func compactString(dst, src []byte, cursor int64, escape bool) ([]byte, int64, e
 		}
 		switch c {
 		case '\\':
-			cursor++
-			if src[cursor] == nul {
-				return nil, 0, errors.ErrUnexpectedEndOfJSON("string", int64(len(src)))
+			end, err := validateEscape(src, cursor+1)
+			if err != nil {
+				return nil, 0, err
 			}
+			cursor = end
 		case '"':
 			cursor++
 			return append(dst, src[start:cursor]...), cursor, nil
 		case nul:
 			return nil, 0, errors.ErrUnexpectedEndOfJSON("string", int64(len(src)))
+		default:
+			if c < 0x20 {
+				// control characters must be escaped (RFC 8259 section 7)
+				return nil, 0, errors.ErrInvalidCharacter(c, "string literal", cursor)
+			}
 		}
 	}
+}
+
+// validateEscape checks the escape sequence whose character after the backslash is at
+// cursor and returns the index of its last byte.
+func validateEscape(src []byte, cursor int64) (int64, error) {
+	switch src[cursor] {
+	case '"', '\\', '/', 'b', 'f', 'n', 'r', 't':
+		return cursor, nil
+	case 'u':
+		for i := 0; i < 4; i++ {
+			cursor++
+			h := src[cursor]
+			if !(('0' <= h && h <= '9') || ('a' <= h && h <= 'f') || ('A' <= h && h <= 'F')) {
+				if h == nul {
+					return 0, errors.ErrUnexpectedEndOfJSON("string", int64(len(src)))
+				}
+				return 0, errors.ErrInvalidCharacter(h, "\\u hexadecimal character escape", cursor)
+			}
+		}
+		return cursor, nil
+	case nul:
+		return 0, errors.ErrUnexpectedEndOfJSON("string", int64(len(src)))
+	}
+	return 0, errors.ErrInvalidCharacter(src[cursor], "string escape code", cursor)
 }
 
 func compactNumber(dst, src []byte, cursor int64) ([]byte, int64, error) {
